@@ -132,10 +132,25 @@ run = Fn(F, ["impl Router", "run"], extra_params="Tracked(w): Tracked<&mut W>",
     attrs="#[verifier::loop_isolation(false)]\n    #[verifier::exec_allows_no_decreases_clause]",
     safety_props=["C17", "C07"])
 
+router_new = Fn(F, ["impl Router", "new"], ret="r", extra_params="Tracked(w): Tracked<&mut W>",
+    requires=[Clause("router.new/requires.fresh_world", "fresh_world(*old(w))")],
+    ensures=[
+        Clause("router.new/ensures.establishes_the_precondition_of_run",
+               "r.msg_wakeup_id == final(w).wakeup && !final(w).acked && final(w).issued.contains(final(w).wakeup) && final(w).live.subset_of(final(w).issued) && final(w).live.contains(final(w).wakeup)\n"
+               "&& (forall|id: u64| final(w).live.contains(id) && id != final(w).wakeup ==> #[trigger] r.handlers@.contains_key(id))\n"
+               "&& (forall|id: u64| #[trigger] r.handlers@.contains_key(id) ==> id != final(w).wakeup && final(w).live.contains(id))\n"
+               "&& final(w).calls == routed(final(w).delivered, final(w).wakeup) && final(w).credit == 0", ["C07", "C17"]),
+    ],
+    hints=[Hint("body:start", "proof { assert(routed(Seq::<(u64, int)>::empty(), 0u64) =~= Seq::<(u64, int)>::empty()); }")],
+    rules=[AppendArg("B14", r"IpcReceiverSet::new\(", W, "receiver set stub", min_count=1),
+           AppendArg("B13", r"ipc_receiver_set\.add\(", W, "receiver set stub: registers the wake-up channel", min_count=1),
+           Rule("D47", r"\bReceiver<RouterMsg>", "MsgReceiver", "crossbeam Receiver<RouterMsg> is the non-generic stand-in MsgReceiver")],
+    safety_props=["C17", "C07"])
+
 UNIT = Unit(
     name="u6_router",
     prelude=["units/common.rs", "units/u6_router.rs"],
-    groups=[("impl Router", [run])],
+    groups=[("impl Router", [router_new, run])],
     props=["C07", "C17"],
     prelude_clauses={
         "router.select/requires.not_after_shutdown_ack": ["C17"],
